@@ -80,7 +80,7 @@ def render(prog, hp, rng, decoys):
         seg = "%s %s %s" % (hp, ctl, m)
         if decoys:
             d = rng.choice(["", " ';'", ' "&&"', " '||'", " \\;", " \\&\\&", ' "a;b"', " 'x && y'", " a\\|\\|b", ' "#"',
-                            " p$?", " '&'x", " \\#",
+                            " p$?", " '&'x", " \\#", " '&'", ' "&"', " 'x' '&'",
                             " 'é€;'", " 日本語", ' "q\\"r;s"', ' "u\\" && v"', " é"])
             seg += d
         parts.append(seg)
